@@ -256,6 +256,38 @@ def cargo_build(res, crate_dir, bin_name, features=None, rustflags=None, target_
         return None
     return os.path.join(env['CARGO_TARGET_DIR'], 'debug', bin_name)
 
+def run_cases(exe, casefile, timeout=1800, env=None, max_crashes=6):
+    """run a line-oriented harness (one block of output per case line, flushed per case; header lines start with SHAPE or #).
+    When the PROCESS dies (abort, e.g. an allocation failure inside a decoder, stack overflow, signal) the case it died on is the
+    first one without output: it is recorded and the run continues with the cases after it.
+    returns (rc of the last run, stdout lines of all runs, [(case line, what the process said when it died)])"""
+    text = open(casefile).read().splitlines()
+    header = [l for l in text if l.startswith(('SHAPE', '#'))]
+    cases = [l for l in text if l.strip() and not l.startswith(('SHAPE', '#'))]
+    out_all, crashed, cur = [], [], casefile
+    while True:
+        try:
+            p = subprocess.run([exe, cur], env=env or ENV, timeout=timeout, stdout=subprocess.PIPE, stderr=subprocess.PIPE, text=True, errors='replace')
+            rc, out, err = p.returncode, p.stdout, p.stderr
+        except subprocess.TimeoutExpired as e:
+            rc, out, err = 124, (e.stdout or b'').decode(errors='replace') if isinstance(e.stdout, bytes) else (e.stdout or ''), f"[timeout after {timeout}s]"
+        lines = out.splitlines()
+        out_all += lines
+        if rc == 0 or not cases:
+            break
+        done = {l.split(' ', 1)[0] for l in lines if l and not l.startswith('ORACLE-FAIL')} | {l.split()[1] for l in lines if l.startswith('ORACLE-FAIL') and len(l.split()) > 1}
+        k = next((i for i, c in enumerate(cases) if c.split()[1] not in done), None)
+        if k is None: break
+        crashed.append((cases[k], ' '.join(err.split())[:300] or f"rc={rc}"))
+        cases = cases[k + 1:]
+        if len(crashed) >= max_crashes or not cases: break
+        cur = casefile + f".rest{len(crashed)}"
+        open(cur, 'w').write('\n'.join(header + cases) + '\n')
+    for i in range(1, len(crashed) + 1):
+        try: os.unlink(casefile + f".rest{i}")
+        except OSError: pass
+    return rc, out_all, crashed
+
 def run_lines(cmd, timeout=1800, env=None):
     rc, out = sh(cmd, timeout=timeout, env=env)
     return rc, out.splitlines()
